@@ -42,6 +42,8 @@ def _node_term(I, n):
         return I.V.none_const(Abs("Node"))
     if isinstance(n, SV) and n.ty == Abs("Node"):
         return n.t
+    if isinstance(n, Obj) and "__term__" in n.fields:
+        return n.fields["__term__"].t
     raise Unsupported(f"not a node: {n!r}")
 
 
